@@ -160,3 +160,110 @@ func pathDependent(p *core.Prog, f *core.Fn, e ast.Expr, depth int) string {
 	})
 	return bad
 }
+
+// removalTakesOneMatch: a path can be stored more than once with the same attributes (two add-path identifiers, two
+// sources merged): every store is paired with ONE removal, and the bookkeeping next to the table (path identifier
+// reference counts, source counters) gives back one unit per removal.  route.removePath must therefore take out the first
+// match only: the branch taken on a match ends the scan.  A filter that drops every match removes paths whose own
+// withdrawal is still to come and leaks the identifiers counted for them.
+func removalTakesOneMatch(c *core.Ctx, rule string) {
+	f := c.MustFunc("route.removePath")
+	if f == nil {
+		return
+	}
+	fns := []*core.Fn{f}
+	for _, call := range core.Calls(f.Pkg, f.Decl.Body, func(o *types.Func) bool { return true }) {
+		if g := c.P.FnOf(core.Callee(f.Pkg, call)); g != nil && g.Pkg == f.Pkg && g.Decl.Body != nil && g.Decl.Recv == nil {
+			fns = append(fns, g)
+		}
+	}
+	n := 0
+	for _, g := range fns {
+		var loops []ast.Stmt
+		var visit func(nd ast.Node) bool
+		visit = func(nd ast.Node) bool {
+			switch x := nd.(type) {
+			case *ast.RangeStmt:
+				loops = append(loops, x)
+				ast.Inspect(x.Body, visit)
+				loops = loops[:len(loops)-1]
+				return false
+			case *ast.ForStmt:
+				loops = append(loops, x)
+				ast.Inspect(x.Body, visit)
+				loops = loops[:len(loops)-1]
+				return false
+			case *ast.IfStmt:
+				if len(loops) == 0 {
+					return true
+				}
+				cond := core.Unparen(x.Cond)
+				neg := false
+				if ue, ok := cond.(*ast.UnaryExpr); ok && ue.Op.String() == "!" {
+					cond, neg = core.Unparen(ue.X), true
+				}
+				cl, ok := cond.(*ast.CallExpr)
+				if !ok {
+					return true
+				}
+				k := core.FuncKey(core.Callee(g.Pkg, cl))
+				if k != "route.(*Path).Compare" && k != "route.(*Path).Equal" {
+					return true
+				}
+				n++
+				c.Analysed(g)
+				ends := false
+				if !neg {
+					for _, s := range loopExits(x.Body) {
+						switch s.(type) {
+						case *ast.ReturnStmt:
+							ends = true
+						case *ast.BranchStmt:
+							if s.(*ast.BranchStmt).Tok.String() == "break" {
+								ends = true
+							}
+						}
+					}
+				}
+				c.Check(ends, rule, g.Name()+" the scan stops at the first matching path", x.Pos(),
+					"the scan goes on after a match (or the match is the skipped branch of a filter): every stored path that compares equal is removed by one removal, although each was stored by its own announcement and the identifier / source bookkeeping gives back one unit per removal")
+			}
+			return true
+		}
+		ast.Inspect(g.Decl.Body, visit)
+	}
+	c.Check(n >= 1, rule, f.Name()+" match test found", f.Decl.Pos(), "no comparison of the stored paths with the path to remove found in removePath or its helpers")
+}
+
+// decisionEqualityIsNotIdentity: (*Path).Equal / (*BGPPath).Equal answer "do the two paths tie in the decision process"
+// (path id, LOCAL_PREF, AS path LENGTH, ORIGIN, MED, …).  They ignore AS path contents, communities, cluster list and unknown
+// attributes, so they must not stand in for identity ("is this path already stored / already queued / the one to
+// replace").  Who-may-call table, frozen from the tree and confirmed by reading: every production call of the
+// decision-equality functions and of the boolean helpers built on them is in a listed function.
+func decisionEqualityIsNotIdentity(c *core.Ctx, rule string) {
+	allowed := map[string]map[string]string{
+		"route.(*Path).Equal": {
+			"route.(*Route).ReplacePath":                    "finds the path to replace; the caller (LocRIB.ReplacePath) hands in the stored object's own attributes",
+			"route.compareItemExists":                       "Route.Equal: two routes are equal when their path lists tie pairwise (used by tests and the API)",
+			"routingtable/locRIB.(*LocRIB).ContainsPfxPath": "test helper of the Loc-RIB, no production caller",
+		},
+		"route.(*BGPPath).Equal":                        {"route.(*Path).Equal": "dispatch by path type"},
+		"route.(*StaticPath).Equal":                     {"route.(*Path).Equal": "dispatch by path type", "route.(*StaticPath).Compare": "static paths have no attributes beyond the next hop"},
+		"route.compareItemExists":                       {"route.comparePathSlice": "Route.Equal"},
+		"routingtable/locRIB.(*LocRIB).ContainsPfxPath": {},
+	}
+	n := 0
+	for _, f := range c.P.AllFuncs() {
+		if f.Decl.Body == nil {
+			continue
+		}
+		for _, call := range core.Calls(f.Pkg, f.Decl.Body, func(o *types.Func) bool { _, ok := allowed[core.FuncKey(o)]; return ok }) {
+			k := core.FuncKey(core.Callee(f.Pkg, call))
+			n++
+			_, ok := allowed[k][core.FuncKey(f.Obj)]
+			c.Check(ok, rule, fmt.Sprintf("%s may call %s", f.Name(), k), call.Pos(),
+				"decision-process equality (ties in best-path selection: ignores AS path contents, communities, cluster list, unknown attributes) is used where this function needs identity: two different paths that tie are taken for the same path (one of them is not stored / not queued / not replaced)")
+		}
+	}
+	c.Check(n >= 5, rule, "call sites of the decision-equality functions", 0, fmt.Sprintf("only %d found", n))
+}
